@@ -335,6 +335,44 @@ namespace
   }
 
   // ------------------------------------------------------------------------------------------ the real objects
+  /// a user-defined level class (the hierarchy accepts any MultiGridLevelBase through push_level(shared_ptr))
+  class CustomLevel : public Solver::MultiGridLevelBase<Mat, LogFilter, LogTransfer>
+  {
+  public:
+    typedef Solver::MultiGridLevelBase<Mat, LogFilter, LogTransfer> Base;
+    const Mat& a; const LogFilter& f; const LogTransfer* t;
+    std::shared_ptr<Base::SolverType> s[4];
+    CustomLevel(const Mat& a_, const LogFilter& f_, const LogTransfer* t_) : a(a_), f(f_), t(t_) {}
+    virtual const Mat& get_system_matrix() const override { return a; }
+    virtual const LogFilter& get_system_filter() const override { return f; }
+    virtual const LogTransfer* get_transfer_operator() const override { return t; }
+    virtual std::shared_ptr<Base::SolverType> get_coarse_solver() override { return s[3]; }
+    virtual std::shared_ptr<Base::SolverType> get_smoother_pre() override { return s[0]; }
+    virtual std::shared_ptr<Base::SolverType> get_smoother_post() override { return s[1]; }
+    virtual std::shared_ptr<Base::SolverType> get_smoother_peak() override { return s[2]; }
+  };
+
+  /// a second set of numerical values on the same patterns (for "update the operators, re-initialise, apply again")
+  HSpec make_variant(const HSpec& H)
+  {
+    HSpec V = H;
+    for(auto& L : V.L)
+    {
+      for(int i = 0; i < L.dim; ++i) L.A(i, i) += 1.0;
+      for(double& x : L.R.v) x *= 0.5;
+      for(double& x : L.G.v) x *= 0.5;
+    }
+    for(auto& kv : V.S) for(double& x : kv.second.v) x *= 0.5;
+    return V;
+  }
+
+  void set_csr_values(Mat& m, const DMat& d)
+  {
+    double* v = m.val(); Index k = 0;
+    for(int i = 0; i < d.m; ++i) for(int j = 0; j < d.n; ++j) if(d(i, j) != 0.0) v[k++] = d(i, j);
+    XASSERTM(k == m.used_elements(), "harness: value update changed the sparsity pattern");
+  }
+
   struct Built
   {
     Recorder rec;
@@ -351,7 +389,24 @@ namespace
       (void)lvl;
     }
 
-    explicit Built(const HSpec& H)
+    /// overwrites all numerical values (level matrices, transfers, sub-solver matrices) by those of Hx (same patterns)
+    void load_values(const HSpec& Hx)
+    {
+      for(auto& kv : Hx.S) solvers.at(kv.first)->S = kv.second;
+      size_t it = 0;
+      for(int l = 0; l < Hx.nphys; ++l)
+      {
+        const LvlSpec& L = Hx.L[size_t(l)];
+        set_csr_values(mats[size_t(l)], L.A);
+        if(L.has_transfer)
+        {
+          LogTransfer& t = transfers[it++];
+          if(L.ghost) t.G = L.G; else { set_csr_values(t.P, L.P); set_csr_values(t.R, L.R); }
+        }
+      }
+    }
+
+    explicit Built(const HSpec& H, bool custom = false)
     {
       for(auto& kv : H.S) solvers[kv.first] = std::make_shared<LogSolver>(kv.first / 4, kv.first, kv.second, &rec);
       hier = std::make_shared<Hierarchy>(std::size_t(H.nvirt));
@@ -366,7 +421,20 @@ namespace
           transfers.emplace_back();
           LogTransfer& t = transfers.back(); t.lvl = l; t.ghost = L.ghost; t.rec = &rec;
           if(L.ghost) t.G = L.G; else { t.P = make_csr(L.P); t.R = make_csr(L.R); }
-          hier->push_level(mats.back(), f, t, sol(l, L.obj[0]), sol(l, L.obj[1]), sol(l, L.obj[2]), sol(l, L.obj[3]));
+          if(custom)
+          {
+            auto cl = std::make_shared<CustomLevel>(mats.back(), f, &t);
+            for(int r = 0; r < 4; ++r) cl->s[r] = sol(l, L.obj[r]);
+            hier->push_level(cl);
+          }
+          else
+            hier->push_level(mats.back(), f, t, sol(l, L.obj[0]), sol(l, L.obj[1]), sol(l, L.obj[2]), sol(l, L.obj[3]));
+        }
+        else if(custom)
+        {
+          auto cl = std::make_shared<CustomLevel>(mats.back(), f, nullptr);
+          cl->s[3] = sol(l, L.obj[3]);
+          hier->push_level(cl);
         }
         else
           hier->push_level(mats.back(), f, sol(l, L.obj[3]));
@@ -408,7 +476,7 @@ namespace
       if(inexact) return false;
       if(mmax == 0.0L) return true;
       int E = ilogbl(mmax) + 1;
-      return kmax + E <= 52;
+      return kmax + E <= 52 && kmax <= 1020 && E <= 1020; // (and inside the normal range of double)
     }
   };
 
@@ -425,7 +493,7 @@ namespace
     std::vector<RefEv> ev;
     int ncoarse = 0;
     bool undefined = false; // adaptive step length 0/0
-    LD bscale = 1.0L;
+    LD bscale = 0.0L;
     std::vector<LD> omegas;
 
     Ref(const HSpec& h, int cyc, int t, int c, int a) : H(h), cycle(cyc), top(t), crs(c), last(std::min(c, h.nphys)), adapt(a), ghostmode(c >= h.nphys) {}
@@ -593,12 +661,19 @@ namespace
 
   std::vector<double> make_defect(const LvlSpec& L, int which)
   {
-    // which < dim: unit vector; dim: alternating dyadic; dim+1: ramp
+    // which < dim: unit vector; dim: alternating dyadic; dim+1: ramp; dim+2: all negative;
+    // dim+3 / dim+4: alternating * 2^+-400 (~1e+-120); dim+5 / dim+6: alternating * 2^-900 / 2^+900 (~1e-+271, fixed CGC only:
+    // the adaptive step lengths square the magnitudes)
     const int d = L.dim;
     std::vector<double> v(size_t(d), 0.0);
     if(which < d) v[size_t(which)] = 1.0;
-    else if(which == d) for(int i = 0; i < d; ++i) v[size_t(i)] = ((i % 2) ? -1.0 : 1.0) * double(1 + (i % 3)) / 2.0;
-    else for(int i = 0; i < d; ++i) v[size_t(i)] = double(i + 1) / 4.0;
+    else if(which == d + 1) for(int i = 0; i < d; ++i) v[size_t(i)] = double(i + 1) / 4.0;
+    else if(which == d + 2) for(int i = 0; i < d; ++i) v[size_t(i)] = -double(1 + (i % 4)) / 4.0;
+    else
+    {
+      const double sc = (which == d + 3) ? std::ldexp(1.0, 400) : (which == d + 4) ? std::ldexp(1.0, -400) : (which == d + 5) ? std::ldexp(1.0, -900) : (which == d + 6) ? std::ldexp(1.0, 900) : 1.0;
+      for(int i = 0; i < d; ++i) v[size_t(i)] = sc * ((i % 2) ? -1.0 : 1.0) * double(1 + (i % 3)) / 2.0;
+    }
     for(int i = 0; i < d; ++i) v[size_t(i)] *= L.fd[size_t(i)]; // FEAT convention: defects handed to a solver are filtered
     return v;
   }
@@ -616,15 +691,15 @@ int main(int argc, char** argv)
     "level; hashed by (case parameters, cycle, top, coarse).";
   spec.bounds_quick = "n=1..6 levels, g in {0,1,2}; 13 uniform smoother patterns (8 presence + 5 alias) + all 64 per-level presence "
     "combinations for n=3; coarse solver none/own/alias; 3 filter variants; Fixed/MinEnergy/MinDefect; all (top,coarse) sub-ranges x {V,F,W}; "
-    "BFS to closure for n<=4, histories up to 2 ops for n>=5 (with reduced configuration product for n>=5 and for the Poisson value set); dyadic value set for all, Poisson value set for a sub-family; all unit defects + 2 dense at depth 0";
+    "BFS to closure for n<=4, histories up to 2 ops for n>=5 (with reduced configuration product for n>=5 and for the Poisson value set); dyadic value set for all, Poisson value set for a sub-family; all unit defects + dense, all-negative and 2^+-400 / 2^+-900 scaled defects at depth 0; per (cycle,top,coarse): bystander MultiGrid, value update + numeric re-init, full re-init; levels alternately via MultiGridLevelStd / a user-defined level class; coarse level in positive and negative form; configuration by constructor or by setters before init";
   spec.bounds_thorough = "full configuration product for n<=6 (Poisson value set at n=6: 5 patterns x coarse none/own x filter none/same), BFS to closure for n<=5 and histories up to 3 ops (2 for the non-core patterns) for n=6, all 512 per-level presence combinations for n=4";
   spec.assumptions = {
     "sub-solvers are linear maps that respect the level filter (S = Fc S' Fd), as real FEAT solvers which carry their filter",
     "the defect passed to apply() is filtered (FEAT convention)",
     "filters are diagonal 0/1 projections; the reference applies them to every defect/correction (idempotent), so only missing or swapped filters are visible, not redundant ones",
-    "level vectors of the hierarchy keep stale contents between histories (don't-care state by contract)",
+    "level vectors of the hierarchy keep stale contents between histories (don't-care state by contract)", "re-initialisation histories (values of all operators replaced by a second set, done/init numeric resp. symbolic+numeric of solver and hierarchy) and a bystander MultiGrid object on the same hierarchy are run for every (cycle,top,coarse) from the initial state, not inside the BFS",
     "adaptive CGC: (configuration, defect) pairs in which a coarse grid correction vanishes to rounding (|c| <= 1e-13 |defect|) are excluded from the result comparison (step length 0/0 not defined; trace and counters are still checked); the exactly-zero class is tested once by case 1",
-    "bitwise comparison where the long double reference proves all intermediate terms exactly representable in double, else |diff| <= 1e-12*max(1, largest sum of absolute terms of any inner product in the reference evaluation) + 64*|reference(long double) - reference(emulated double)| (the second term is evaluated only where the first alone fails: non-contractive configurations amplify rounding errors)",
+    "bitwise comparison where the long double reference proves all intermediate terms exactly representable in double, else |diff| <= 1e-12*(largest sum of absolute terms of any inner product in the reference evaluation; relative, so that defects of magnitude 1e+-270 are judged like O(1) ones) + 64*|reference(long double) - reference(emulated double)| (the second term is evaluated only where the first alone fails: non-contractive configurations amplify rounding errors)",
     "LAFEM::SparseMatrixCSR::apply, DenseVector::axpy/dot/copy are trusted here (C01/C04)"};
 
   return verif::run(spec, argc, argv, [&](verif::Ctx& c) {
@@ -713,7 +788,10 @@ int main(int argc, char** argv)
         const uint64_t chash = verif::Hash().str(ckey).get();
 
         HSpec H = make_spec(vs, n, g, pat, cs, filt);
-        Built B(H);
+        const HSpec H2 = make_variant(H);          // second value set on the same patterns
+        const HSpec* Hcur = &H;                    // the values currently loaded into the real objects
+        const bool custom = ((pi + size_t(cs) + size_t(filt) + size_t(g)) % 2 == 1); // user-defined level class instead of MultiGridLevelStd
+        Built B(H, custom);
         Recorder& rec = B.rec;
 
         // ---- life-cycle: init
@@ -740,18 +818,28 @@ int main(int argc, char** argv)
         uint64_t n_events = 0, n_valid = 0, n_exact = 0, n_tol = 0;
         size_t maxdepth_seen = 0;
 
+        // the coarse level is passed in its negative form (size_virtual + crs < 0) for even top levels
+        auto crs_arg = [&](const Cfg& f) { return (f.top % 2 == 0) ? f.crs - (n + g) : f.crs; };
         auto select = [&](MG& mg, const Cfg& f) {
           mg.set_cycle(cyc_enum(f.cycle));
-          const bool neg = (f.crs == n + g - 1) && (f.top % 2 == 0);
-          mg.set_levels(f.top, neg ? -1 : f.crs);
+          mg.set_levels(f.top, crs_arg(f));
         };
-        auto new_mg = [&](const Cfg& f) {
-          const bool neg = (f.crs == n + g - 1) && (f.top % 2 == 0);
-          std::shared_ptr<MG> mg = Solver::new_multigrid(B.hier, cyc_enum(f.cycle), f.top, neg ? -1 : f.crs);
+        auto new_mg = [&](const Cfg& f, bool late = false) {
+          // late: default-constructed (V, finest..coarsest) and configured by the setters BEFORE init_symbolic
+          std::shared_ptr<MG> mg = late ? Solver::new_multigrid(B.hier) : Solver::new_multigrid(B.hier, cyc_enum(f.cycle), f.top, crs_arg(f));
+          if(late) select(*mg, f);
           mg->set_adapt_cgc(adapt == 0 ? Solver::MultiGridAdaptCGC::Fixed : adapt == 1 ? Solver::MultiGridAdaptCGC::MinEnergy : Solver::MultiGridAdaptCGC::MinDefect);
           mg->init_symbolic();
           mg->init_numeric();
           return mg;
+        };
+        // checks that one (re-)initialisation phase touched every unique sub-solver exactly once
+        auto check_life = [&](int phase, const std::string& what) {
+          std::map<int, int> cnt;
+          for(auto& p : rec.life) if(p.second == phase) ++cnt[p.first];
+          bool once = true;
+          for(auto& kv : H.S) if(cnt[kv.first] != 1) once = false;
+          c.check(once, "hierarchy re-initialisation: every unique sub-solver exactly once; " + ckey, [&]{ return what; });
         };
         auto plain_apply = [&](MG& mg, const Cfg& f, int which) {
           const LvlSpec& T = H.L[size_t(f.top)];
@@ -766,6 +854,7 @@ int main(int argc, char** argv)
         // one validated application
         auto validate = [&](MG& mg, size_t ci, int which, const std::string& hist) {
           const Cfg& f = cfgs[ci];
+          const HSpec& H = *Hcur; // (shadows the case's original specification: the values currently loaded)
           const LvlSpec& T = H.L[size_t(f.top)];
           const std::string key = std::string(1, CYC[f.cycle]) + " top=" + std::to_string(f.top) + " crs=" + std::to_string(f.crs) + "; " + ckey;
           std::vector<double> dv = make_defect(T, which);
@@ -872,7 +961,7 @@ int main(int argc, char** argv)
           // scale of the rounding errors: the largest sum of absolute values of the terms of any inner product of the
           // reference evaluation (configurations without a coarse solver on the Poisson levels are far from contractive:
           // large intermediate values cancel in the result)
-          LD scale = std::max((LD)1.0L, ref.tr.mmax); for(LD t : x) scale = std::max(scale, fabsl(t));
+          LD scale = ref.tr.mmax; for(LD t : x) scale = std::max(scale, fabsl(t));
           bool num_ok = true; int bad = -1;
           for(int i = 0; i < T.dim; ++i)
           {
@@ -900,7 +989,7 @@ int main(int argc, char** argv)
             return std::string(buf) + where(); });
 
           // (2b) adaptive CGC on a bare two-level configuration: the step length is a minimiser by definition
-          if(adapt != 0 && num_ok && f.cycle == 0 && std::min(f.crs, n) - f.top == 1 && H.L[size_t(f.top)].obj[0] < 0 && H.L[size_t(f.top)].obj[1] < 0 && ref.omegas.size() == 1)
+          if(adapt != 0 && num_ok && which <= T.dim + 2 && f.cycle == 0 && std::min(f.crs, n) - f.top == 1 && H.L[size_t(f.top)].obj[0] < 0 && H.L[size_t(f.top)].obj[1] < 0 && ref.omegas.size() == 1)
           {
             // x = omega * c  with c the filtered prolongated coarse solution: recompute c with omega := 1
             Ref r1(H, f.cycle, f.top, f.crs, 0);
@@ -937,7 +1026,8 @@ int main(int argc, char** argv)
           maxdepth_seen = std::max(maxdepth_seen, hist.size());
           for(size_t ci = 0; ci < cfgs.size(); ++ci)
           {
-            std::shared_ptr<MG> mg = new_mg(hist.empty() ? cfgs[ci] : cfgs[hist[0]]);
+            c.heartbeat();
+            std::shared_ptr<MG> mg = new_mg(hist.empty() ? cfgs[ci] : cfgs[hist[0]], (ci + hist.size()) % 2 == 1);
             std::string hs;
             for(size_t h = 0; h < hist.size(); ++h)
             {
@@ -950,12 +1040,47 @@ int main(int argc, char** argv)
             if(hist.empty())
             {
               // all unit defects (a sub-family for the larger Poisson levels) + two dense ones, then one more time (repeated application)
-              for(int w = 0; w < dim + 2; ++w)
+              // (plus an all-negative one and defects of extreme magnitude)
+              for(int w = 0; w < dim + (adapt == 0 ? 7 : 5); ++w)
               {
                 if(dim > 8 && w < dim && !(w == 0 || w == 1 || w == dim / 2 || w == dim - 1)) continue;
                 validate(*mg, ci, w, hs);
               }
               validate(*mg, ci, dim, hs + "(repeat) ");
+              // a second MultiGrid object on the same hierarchy works in between (shared level vectors are don't-care state)
+              {
+                const Cfg& fb = cfgs[(ci + 5) % cfgs.size()];
+                std::shared_ptr<MG> by = new_mg(fb);
+                plain_apply(*by, fb, dim + 1); // (the same defect as the next validated application if the top levels coincide)
+                validate(*mg, ci, dim + 1, hs + "[bystander MultiGrid applied] ");
+                plain_apply(*by, fb, int(ci + 1));
+                by->done_numeric(); by->done_symbolic();
+                c.count("bystander_histories");
+              }
+              // the operators change, hierarchy and solver are re-initialised numerically: same defect, new linear map
+              {
+                mg->done_numeric();
+                B.hier->done_numeric();
+                B.load_values(H2); Hcur = &H2;
+                rec.life.clear();
+                B.hier->init_numeric();
+                mg->init_numeric();
+                check_life(1, "init_numeric after done_numeric");
+                validate(*mg, ci, dim, hs + "apply; values updated + numeric re-init; ");
+                validate(*mg, ci, dim + 1, hs + "apply; values updated + numeric re-init; apply; ");
+                // full symbolic + numeric re-initialisation of solver and hierarchy, original values restored
+                mg->done_numeric(); mg->done_symbolic();
+                rec.life.clear();
+                B.hier->done_numeric(); B.hier->done_symbolic();
+                check_life(2, "done_numeric"); check_life(3, "done_symbolic");
+                B.load_values(H); Hcur = &H;
+                rec.life.clear();
+                B.hier->init_symbolic(); B.hier->init_numeric();
+                check_life(0, "init_symbolic after done_symbolic"); check_life(1, "init_numeric after done_symbolic");
+                mg->init_symbolic(); mg->init_numeric();
+                validate(*mg, ci, dim, hs + "apply; update; re-init; apply; values restored + full re-init; ");
+                c.count("reinit_histories");
+              }
             }
             else
             {
